@@ -57,6 +57,7 @@ type CallRec struct {
 	Err   int   // ErrData code, 0 = ok
 	Size  int   // bytes returned / size reported
 	Fault FaultKind
+	Names []string // glob: the raw match list returned
 }
 
 // Disk is the whole simulated disk + environment.  It is owned by the
@@ -336,6 +337,9 @@ func (d *Disk) glob(pattern string) *simrt.Resp {
 		return &simrt.Resp{Err: &simrt.ErrData{Code: 9, Msg: err.Error()}}
 	}
 	d.rec("glob", pattern, 0, len(matches), FNone)
+	if d.Trace != nil && len(*d.Trace) > 0 {
+		(*d.Trace)[len(*d.Trace)-1].Names = append([]string(nil), matches...)
+	}
 	if matches == nil {
 		return &simrt.Resp{}
 	}
